@@ -295,10 +295,10 @@ theorem closedUnder_closed (n : Nat) (res : List E) (inS : Nat → Bool) (S : Fi
 
 /-- the parts of `certOK` that do not mention a cut give the invariant, conservation and the value -/
 theorem cert_parts (es res : List E) (s t : Nat) (n : Nat) (hs : s < n) (ht : t < n)
-    (hnn : nonnegAll res = true) (hp : pairOK n es res = true)
-    (hcons : conservedOK n es res s t = true) :
+    (hnn : nonnegAll res = true) (hp : pairOK n (capOf es) (capOf res) = true)
+    (hcons : conservedOK n (capOf es) (capOf res) s t = true) :
     ResInv (cF es n) (cF res n) ∧ Conserved (cF es n) (cF res n) ⟨s, hs⟩ ⟨t, ht⟩ ∧
-    value (resFlow (cF es n) (cF res n)) ⟨s, hs⟩ = valueOf n es res s := by
+    value (resFlow (cF es n) (cF res n)) ⟨s, hs⟩ = valueOf n (capOf es) (capOf res) s := by
   refine ⟨⟨fun u v => capOf_nonneg res hnn _ _, ?_⟩, ?_, ?_⟩
   · intro u v
     have := (allTo_iff n _).mp hp u.val u.isLt
@@ -319,7 +319,8 @@ theorem certOK_sound (es : List E) (s t : Nat) (res : List E) (x : ℤ)
     (h : certOK es s t res x = true) :
     ∃ (hs : s < nNodes es) (ht : t < nNodes es),
       IsMaxFlowValue (cF es (nNodes es)) ⟨s, hs⟩ ⟨t, ht⟩ x := by
-  simp only [certOK, Bool.and_eq_true, decide_eq_true_eq, Bool.not_eq_eq_eq_not, Bool.not_true] at h
+  simp only [certOK, certCore, Bool.and_eq_true, decide_eq_true_eq, Bool.not_eq_eq_eq_not,
+    Bool.not_true] at h
   obtain ⟨⟨⟨⟨⟨⟨⟨⟨hs, ht⟩, _hne⟩, hnn⟩, hp⟩, hcons⟩, hval⟩, htn⟩, hcl⟩ := h
   refine ⟨hs, ht, ?_⟩
   obtain ⟨hinv, hc, hv⟩ := cert_parts es res s t (nNodes es) hs ht hnn hp hcons
@@ -425,11 +426,13 @@ theorem minCutOK_sound (es : List E) (s t : Nat) (res : List E) (x : ℤ) (bits 
       (∀ v, v ∈ A ↔ Reach (cF res n) ⟨s, hs⟩ v) ∧
       (∀ S' : Finset (Fin n), ⟨s, hs⟩ ∈ S' → ⟨t, ht⟩ ∉ S' → cutCap c A ≤ cutCap c S') ∧
       (∀ S' : Finset (Fin n), ⟨s, hs⟩ ∈ S' → ⟨t, ht⟩ ∉ S' → cutCap c S' = x → A ⊆ S') := by
-  simp only [minCutOK, Bool.and_eq_true, decide_eq_true_eq, Bool.not_eq_eq_eq_not, Bool.not_true] at h
-  obtain ⟨⟨⟨⟨⟨⟨hcert, _hlen⟩, hsA⟩, htA⟩, hcut⟩, hcl⟩, hreach⟩ := h
+  simp only [minCutOK, cutPart, Bool.and_eq_true, decide_eq_true_eq, Bool.not_eq_eq_eq_not,
+    Bool.not_true] at h
+  obtain ⟨hcert, ⟨⟨⟨⟨⟨_hlen, hsA⟩, htA⟩, hcut⟩, hcl⟩, hreach⟩⟩ := h
   obtain ⟨hs, ht, hmax⟩ := certOK_sound es s t res x hcert
   refine ⟨hs, ht, ?_⟩
-  simp only [certOK, Bool.and_eq_true, decide_eq_true_eq, Bool.not_eq_eq_eq_not, Bool.not_true] at hcert
+  simp only [certOK, certCore, Bool.and_eq_true, decide_eq_true_eq, Bool.not_eq_eq_eq_not,
+    Bool.not_true] at hcert
   obtain ⟨⟨⟨⟨⟨⟨⟨⟨_, _⟩, _hne⟩, hnn⟩, hp⟩, hcons⟩, hval⟩, _htn⟩, _hcl'⟩ := hcert
   obtain ⟨hinv, hc, hv⟩ := cert_parts es res s t (nNodes es) hs ht hnn hp hcons
   intro n c A
@@ -455,5 +458,101 @@ theorem minCutOK_sound (es : List E) (s t : Nat) (res : List E) (x : ℤ) (bits 
   refine ⟨hmax, hsM, htM, by rw [e1, hxv], hcut, hA, m1, ?_⟩
   intro S' hs' ht' heq
   exact closure_minimal hinv hc A hA S' hs' ht' (by rw [heq, hxv])
+
+/-! ### the tabulated checker the judge runs equals the reference checker -/
+
+theorem allTo_congr (n : Nat) (p q : Nat → Bool) (h : ∀ i, i < n → p i = q i) : allTo n p = allTo n q := by
+  unfold allTo
+  rw [Bool.eq_iff_iff]
+  simp only [List.all_eq_true, List.mem_range]
+  constructor
+  · intro a i hi; rw [← h i hi]; exact a i hi
+  · intro a i hi; rw [h i hi]; exact a i hi
+
+theorem sumTo_congr (n : Nat) (f g : Nat → ℤ) (h : ∀ i, i < n → f i = g i) : sumTo n f = sumTo n g := by
+  unfold sumTo
+  congr 1
+  apply List.map_congr_left
+  intro i hi; exact h i (List.mem_range.mp hi)
+
+theorem certCore_congr (n : Nat) (c c' r r' : Nat → Nat → ℤ) (s t : Nat) (res : List E) (x : ℤ)
+    (hc : ∀ u v, u < n → v < n → c u v = c' u v) (hr : ∀ u v, u < n → v < n → r u v = r' u v) :
+    certCore n c r s t res x = certCore n c' r' s t res x := by
+  by_cases hs : s < n
+  · have h1 : pairOK n c r = pairOK n c' r' := by
+      unfold pairOK
+      apply allTo_congr; intro u hu; apply allTo_congr; intro v hv
+      rw [hc u v hu hv, hc v u hv hu, hr u v hu hv, hr v u hv hu]
+    have h2 : conservedOK n c r s t = conservedOK n c' r' s t := by
+      unfold conservedOK
+      apply allTo_congr; intro u hu
+      rw [sumTo_congr n (fun v => c u v - r u v) (fun v => c' u v - r' u v)
+        (fun v hv => by rw [hc u v hu hv, hr u v hu hv])]
+    have h3 : valueOf n c r s = valueOf n c' r' s := by
+      unfold valueOf
+      exact sumTo_congr n _ _ (fun v hv => by rw [hc s v hs hv, hr s v hs hv])
+    simp only [certCore, h1, h2, h3]
+  · simp [certCore, hs]
+
+theorem idx_inj (n a b u v : Nat) (hb : b < n) (hv : v < n) (h : a * n + b = u * n + v) : a = u ∧ b = v := by
+  have h1 : (a * n + b) / n = a := by
+    rw [Nat.mul_comm, Nat.mul_add_div (by omega), Nat.div_eq_of_lt hb]; rfl
+  have h2 : (u * n + v) / n = u := by
+    rw [Nat.mul_comm, Nat.mul_add_div (by omega), Nat.div_eq_of_lt hv]; rfl
+  have hau : a = u := by rw [← h1, ← h2, h]
+  subst hau
+  exact ⟨rfl, by omega⟩
+
+theorem look_fold (n : Nat) (es : List E) (M : Array ℤ) (hM : M.size = n * n) (u v : Nat)
+    (hu : u < n) (hv : v < n) :
+    look n (es.foldl (fun M e =>
+      if e.1 < n ∧ e.2.1 < n then st M (e.1 * n + e.2.1) (gt M (e.1 * n + e.2.1) + e.2.2) else M) M) u v
+    = look n M u v + capOf es u v := by
+  induction es generalizing M with
+  | nil => simp [capOf]
+  | cons e es ih =>
+    simp only [List.foldl_cons]
+    have hcap : capOf (e :: es) u v = (if e.1 = u ∧ e.2.1 = v then e.2.2 else 0) + capOf es u v := by
+      simp [capOf]
+    rw [hcap]
+    by_cases hin : e.1 < n ∧ e.2.1 < n
+    · rw [if_pos hin, ih _ (by simp [hM])]
+      have hidx : e.1 * n + e.2.1 < M.size := by
+        rw [hM]
+        calc e.1 * n + e.2.1 < e.1 * n + n := by omega
+          _ = (e.1 + 1) * n := by rw [Nat.add_mul]; omega
+          _ ≤ n * n := by rw [Nat.mul_comm]; exact Nat.mul_le_mul_left n (by omega)
+      unfold look
+      rw [gt_st]
+      by_cases heq : e.1 * n + e.2.1 = u * n + v
+      · obtain ⟨h1, h2⟩ := idx_inj n _ _ _ _ hin.2 hv heq
+        rw [if_pos ⟨heq, hidx⟩, if_pos ⟨h1, h2⟩, heq]; omega
+      · have : ¬ (e.1 = u ∧ e.2.1 = v) := by
+          rintro ⟨h1, h2⟩; apply heq; rw [h1, h2]
+        rw [if_neg (fun h => heq h.1), if_neg this]; omega
+    · rw [if_neg hin, ih _ hM]
+      have : ¬ (e.1 = u ∧ e.2.1 = v) := by
+        rintro ⟨h1, h2⟩; apply hin; rw [h1, h2]; exact ⟨hu, hv⟩
+      rw [if_neg this]; omega
+
+theorem look_matOf (n : Nat) (es : List E) (u v : Nat) (hu : u < n) (hv : v < n) :
+    look n (matOf n es) u v = capOf es u v := by
+  unfold matOf
+  rw [look_fold n es _ (by simp) u v hu hv]
+  have : look n (Array.replicate (n * n) (0 : ℤ)) u v = 0 := by
+    unfold look gt; simp only [Array.getD_eq_getD_getElem?, Array.getElem?_replicate]
+    split <;> rfl
+  rw [this]; omega
+
+/-- the judge's checker is the reference checker -/
+theorem certFast_eq (es : List E) (s t : Nat) (res : List E) (x : ℤ) :
+    certFast es s t res x = certOK es s t res x := by
+  unfold certFast certOK
+  exact certCore_congr _ _ _ _ _ s t res x (fun u v hu hv => look_matOf _ es u v hu hv)
+    (fun u v hu hv => look_matOf _ res u v hu hv)
+
+theorem minCutFast_eq (es : List E) (s t : Nat) (res : List E) (x : ℤ) (bits : List Bool) :
+    minCutFast es s t res x bits = minCutOK es s t res x bits := by
+  unfold minCutFast minCutOK; rw [certFast_eq]
 
 end Tbx.FlowTheory
